@@ -274,6 +274,11 @@ class MibCompiler(object):
 
                             brokenMibs.add(mibTree[0])
 
+                            if mibname in mibnames:
+                                # part of a requested file, as its sound
+                                # modules are
+                                canonicalMibNames.setdefault(mibTree[0], [])
+
                             continue
 
                         symbolTableMap[mibInfo.name] = symbolTable
